@@ -188,32 +188,46 @@ def normObjectProp (F : TFacts) (o : J) (p : String) (actorMap : List Iri) : Pro
   let missing := actorMap.filter fun k => !m.contains k
   pure (setList o p (xs ++ mkIdList missing), m)
 
-/-- `normalizeRecipients(a)` for a Create whose `object` property is non-nil.
-Appends happen in Go-map order in the code; here in first-seen order (compared as sets). -/
-def normalizeRecipients (F : TFacts) (a : J) : Prog J := do
-  -- Phase 0
-  let (a, maps) ← addressing.foldlM (fun (st : J × List (List Iri)) p => do
-      let (a', m) ← normActivityProp F st.1 p
-      pure (a', st.2 ++ [m])) (a, [])
-  let objs ← match prop F a "object" with
-    | none => Prog.panic "normalizeRecipients: o.Len() on nil object property"
-    | some xs => pure xs
-  -- Phases 1, 2 per object
-  let (objs', objMaps) ← objs.foldlM (fun (st : List J × List (List (List Iri))) j => do
+/-- a property the code dereferences without a nil check -/
+def needList (site : String) (o : Option (List J)) : Prog (List J) :=
+  match o with
+  | some xs => .ret xs
+  | none => .panic site
+
+/-- Phase 0: every addressing property of the activity made non-nil, with its id map -/
+def normPhase0 (F : TFacts) (a : J) : Prog (J × List (List Iri)) :=
+  addressing.foldlM (fun (st : J × List (List Iri)) p => do
+      let r ← normActivityProp F st.1 p
+      pure (r.1, st.2 ++ [r.2])) (a, [])
+
+/-- Phases 1+2 for one object: all five properties -/
+def normObject (F : TFacts) (maps : List (List Iri)) (o : J) : Prog (J × List (List Iri)) :=
+  (addressing.zip maps).foldlM (fun (s2 : J × List (List Iri)) pm => do
+      let r ← normObjectProp F s2.1 pm.1 pm.2
+      pure (r.1, s2.2 ++ [r.2])) (o, [])
+
+/-- Phases 1+2 over all objects; an object that is not a typed value has no 'to' property -/
+def normObjects (F : TFacts) (maps : List (List Iri)) (objs : List J) : Prog (List J × List (List (List Iri))) :=
+  objs.foldlM (fun (st : List J × List (List (List Iri))) j =>
       match elemOf F j with
-      | .emb o =>
-        let (o', ms) ← (addressing.zip maps).foldlM (fun (s2 : J × List (List Iri)) pm => do
-            let (o2, m) ← normObjectProp F s2.1 pm.1 pm.2
-            pure (o2, s2.2 ++ [m])) (o, [])
-        pure (st.1 ++ [o'], st.2 ++ [ms])
+      | .emb o => do
+        let r ← normObject F maps o
+        pure (st.1 ++ [r.1], st.2 ++ [r.2])
       | _ => Prog.fail .lib) ([], [])
-  let a := setList a "object" objs'
-  -- Phase 3: object ids missing from the activity's original map, object by object
-  let a := (addressing.zip maps).zipIdx.foldl (fun (a : J) pmi =>
-      let p := pmi.1.1; let am := pmi.1.2; let i := pmi.2
-      let extra := objMaps.flatMap fun ms => (ms.getD i []).filter fun k => !am.contains k
-      setList a p ((rawList a p).getD [] ++ mkIdList extra)) a
-  pure a
+
+/-- Phase 3: object ids missing from the activity's original map, object by object -/
+def normPhase3 (a : J) (maps : List (List Iri)) (objMaps : List (List (List Iri))) : J :=
+  (addressing.zip maps).zipIdx.foldl (fun (a : J) pmi =>
+      let extra := objMaps.flatMap fun ms => (ms.getD pmi.2 []).filter fun k => !pmi.1.2.contains k
+      setList a pmi.1.1 ((rawList a pmi.1.1).getD [] ++ mkIdList extra)) a
+
+/-- `normalizeRecipients(a)` for a Create.  Appends happen in Go-map order in the code; here in first-seen
+order (compared as sets). -/
+def normalizeRecipients (F : TFacts) (a : J) : Prog J := do
+  let r0 ← normPhase0 F a
+  let objs ← needList "normalizeRecipients: o.Len() on nil object property" (prop F r0.1 "object")
+  let r1 ← normObjects F r0.2 objs
+  pure (normPhase3 (setList r0.1 "object" r1.1) r0.2 r1.2)
 
 /-! ### `toTombstone` -/
 
@@ -295,10 +309,10 @@ def removeLoop (F : TFacts) (opIds : List Iri) (t : Iri) : Prog Unit := do
     let tp ← match rawList tp key with
       | none => pure tp
       | some xs => do
-        let kept ← xs.filterM fun j => do
+        let kept ← xs.foldlM (fun (acc : List J) j => do
           let id ← liftLib (toId F (elemOf F j))
           let id ← strOf "remove: id.String() on nil" id
-          pure (!opIds.contains id)
+          pure (if opIds.contains id then acc else acc ++ [j])) []
         pure (setList tp key kept)
     Op.update tp) (Op.unlock t)
 
